@@ -12,7 +12,7 @@ import dsched
 
 KINDS = ["ok", "exc", "baseexc", "badres", "badarg"]
 KINDS_TIMEOUT = KINDS + ["slow_to", "slow_to", "ok"]
-KINDS_LOCKQ = ["ok", "islocked", "ok", "exc", "islocked"]   # lock-control requests travel the same queue as method calls
+KINDS_LOCKQ = ["ok", "islocked", "ok", "exc", "islocked", "getname", "getsignals"]   # lock-control requests travel the same queue as method calls
 # values the SENDER can pickle but the RECEIVER cannot unpickle (a class/module missing on the other side): the receiving
 # connection gives up (orderly loss of the peer connection caused by the message itself)
 KINDS_BADLOAD = ["ok", "badload_arg", "ok", "badload_res", "exc", "ok"]
@@ -60,6 +60,17 @@ def make_object_class():
             dsched.FAKE_TIME.sleep(0)          # a scheduling point inside the method body
             self._execlog.append(("exit", tag, self._depth))
             self._depth -= 1
+
+        # the built-in information methods are requests like any other: same queue, one at a time, in order
+        @rpc_method
+        def get_name(self):
+            self._enter("?builtin%d" % len(self._execlog))
+            return super().get_name()
+
+        @rpc_method
+        def get_signals(self):
+            self._enter("?builtin%d" % len(self._execlog))
+            return super().get_signals()
 
         @rpc_method
         def ok(self, tag, payload=None):
@@ -451,12 +462,15 @@ def scenario(s, spec):
             if kind == "islocked":
                 finish(rec, proxy.is_locked)
                 continue
+            args = (tag, payload)
+            if kind in ("getname", "getsignals"):
+                meth, args = {"getname": "get_name", "getsignals": "get_signals"}[kind], ()
             if kind == "slow_to":
                 finish(rec, lambda: proxy.slow(tag, None, rpc_timeout=1.0))
                 continue
             if nb_mask[i % len(nb_mask)]:
                 try:
-                    fut = getattr(proxy.rpc_nonblocking, meth)(tag, payload)
+                    fut = getattr(proxy.rpc_nonblocking, meth)(*args)
                 except BaseException as e:  # noqa
                     finish(rec, lambda e=e: (_ for _ in ()).throw(e))
                     continue
@@ -467,7 +481,7 @@ def scenario(s, spec):
                     dsched.FAKE_TIME.sleep(0)
                     finish(rec, fut.wait)
             else:
-                finish(rec, lambda: getattr(proxy, meth)(tag, payload))
+                finish(rec, lambda: getattr(proxy, meth)(*args))
         for rec, fut in pending:
             finish(rec, fut.wait)
 
